@@ -15,6 +15,7 @@ import (
 )
 
 type Clause struct {
+	AssumedOnly bool // postcondition assumed at call sites, not verified in the body
 	FromLoopAll bool // a loopall clause: silently skipped at loops where it does not bind
 	Label string
 	Expr  CExpr
@@ -385,6 +386,15 @@ func (cs *ContractSet) addClause(c *FuncContract, text, where string) error {
 			return err
 		}
 		c.Ensures = append(c.Ensures, cl)
+	case "assumes":
+		// a postcondition that callers may use but that is NOT verified against the body (a
+		// definitional clause over an uninterpreted spec function); listed in the evidence
+		cl, err := mk(rest, len(c.Ensures), "post")
+		if err != nil {
+			return err
+		}
+		cl.AssumedOnly = true
+		c.Ensures = append(c.Ensures, cl)
 	case "assigns":
 		c.HasAssigns = true
 		if rest == "" || rest == "nothing" {
@@ -418,6 +428,9 @@ func (cs *ContractSet) addClause(c *FuncContract, text, where string) error {
 		c.Trusted = true
 	case "maypanic":
 		c.MayPanic = true
+	case "taint":
+		// diagnostic-content (taint) obligations for this one function (cf. verif:taintscan for whole files)
+		c.Taint = true
 	case "nilrecv":
 		c.NoNilRecv = true
 	case "nosafety":
